@@ -45,8 +45,9 @@ REQUIRED_COUNTERS = ['errors_calls', 'unreachable_seen', 'invalid_role_seen', 'c
 SRC = ['a', 'b', 'c', 'i']
 TGT = ['a', 'b', 'c', 'i', 'x', None]
 ROLES = [':instance', ':ARG0', ':ARG0-of', ':foo', ':foo-of', ':consist-of', ':mod', ':ARG0-of-of',
+         ':ARG10', ':ARG10-of', ':mode', ':model-of', ':q1x', ':q1x-of', ':op1-x-of', ':x-of', ':w-of-of',
          ':consist-of-of', ':consist-of-of-of', ':mod-of-of-of', ':TOP', ':op1', ':TOP-of', ':instance-of']
-MODELS_E = ['default', 'amr', 'mini', 'rand1', 'rand2', 'noop', 'miniroot']
+MODELS_E = ['default', 'amr', 'mini', 'rand1', 'rand2', 'noop', 'miniroot', 'prefix', 'both']
 GOOD = [':ARG0', ':ARG1', ':mod', ':op1', ':polarity', ':consist-of', ':time']
 BADR = [':foo', ':stroke', ':ARG10', ':consist', ':foo-of-of', ':ARG0-of-of', ':ARG1-of-of-of', ':consist-of-of-of']
 
@@ -129,7 +130,7 @@ def oracle(ctx, kind, p):
         ctx.case(p, True)
     elif kind == 'rand':
         rng = ctx.rng('rand', p['i'])
-        mname = MODELS_E[p['i'] % len(MODELS_E)]
+        mname = MODELS_E[(p['i'] // 3) % len(MODELS_E)]     # (independent of the case kind i % 3 below)
         _, model, rm, _ = M.get(mname)
         k = p['i'] % 3
         if k == 0:
@@ -312,7 +313,8 @@ def run_cli_case(ctx, p):
                 fh.write(txt)
             files.append(path)
         use_stdin = nfiles == 1 and rng.random() < 0.5
-        argv = ([mflag] if mflag else []) + ['--check'] + ([] if use_stdin else files)
+        as_triples = p['i'] % 5 == 4       # --check with --triples: the verdict is the same, the output is not PENMAN
+        argv = ([mflag] if mflag else []) + ['--check'] + (['--triples'] if as_triples else []) + ([] if use_stdin else files)
         det = {'argv': argv[:2], 'files': texts, 'stdin': use_stdin, 'expect_error': expect_bad}
         ctx.current = ['cli', p]
         runs = [('in-process', run_main(argv, texts[0] if use_stdin else None))]
@@ -341,6 +343,9 @@ def run_cli_case(ctx, p):
             if (code != 0) != expect_bad:
                 ctx.fail('cli:exit-status', mech='zero-despite-error' if expect_bad else 'nonzero-without-error',
                          detail=dict(det, how=how, exit=code))
+            if as_triples:
+                ctx.count('cli_check_with_triples')
+                continue
             try:
                 outg = list(penman.iterdecode(out, model=model))
             except Exception as e:
